@@ -606,7 +606,9 @@ def ob_join(op, w, tier="quick", smart=True):
         _result_check(c, op, r, v, w, ns)
         return "ret"
 
-    return explore(body, _opts(w, tier))
+    # three symbolic operands do not finish at widths >= 2 in any budget: a fixed share of the time in both tiers (partial = bounded, the exhaustive
+    # triples of si_pairs.run_lub3 are the complete part)
+    return explore(body, _opts(w, tier, **({"budget_s": 240 if tier == "quick" else 600} if op == "least_upper_bound3" else {})))
 
 
 def ob_meet(op, w, tier="quick"):
